@@ -527,7 +527,18 @@ def arg_lang(c, facts, b, g, spec, scope, prim):
             live = [unwrap(a) for a in flat_alts(ib) if not never_succeeds(g, a)] if ib else []
             okt = None
             det = "letter alternative not recognised"
-            if len(live) == 1 and live[0]["t"] == "map":
+            if live and all(x_["t"] == "value" and unwrap(x_["p"])["t"] == "lit" and len(unwrap(x_["p"])["s"]) == 1 and x_.get("v") is not None and rx.path_str(x_["v"]) for x_ in live):
+                # one alternative per letter, each with its constant (also what a constant-valued verify_map table becomes)
+                tab_ = {}
+                dup_ = []
+                for x_ in live:
+                    ch_ = unwrap(x_["p"])["s"]
+                    if ch_ in tab_:
+                        dup_.append(ch_)
+                    tab_.setdefault(ch_, rx.canon_path(rx.path_str(x_["v"]), scope))
+                okt = tab_ == spec["file_types"] and not dup_
+                det = "letters %r → %s; reference %s" % ("".join(sorted(tab_)), tab_, spec["file_types"])
+            elif len(live) == 1 and live[0]["t"] == "map":
                 vt = args.value_table(g, facts, live[0], scope, tuple(facts.fns[unwrap(body["p"])["fn"]].module))
                 if vt is not None and not vt["numbered"]:
                     okt = vt["table"] == spec["file_types"] and vt["chars"] == "".join(sorted(spec["file_types"].keys())) and vt["one"] and not vt["problems"]
